@@ -34,11 +34,31 @@ SCN["parnext"] = ({"StartAt": "P", "States": {"P": {"Type": "Parallel", "Next": 
     {"StartAt": "A", "States": {"A": {"Type": "Pass", "Result": "a", "End": True}}},
     {"StartAt": "B", "States": {"B": {"Type": "Pass", "Result": "b", "End": True}}}]},
     "Z": {"Type": "Pass", "Result": "z", "ResultPath": "$.z", "End": True}}}, [])
-DATA = {"chain": {"x": 1}, "wait": {"x": 1}, "par": {"x": 1}, "map": {"items": [{"i": 0}, {"i": 1}]}, "parnext": {"x": 1}}
+# a Task that fails once with a retriable error and succeeds on the retry (3 s later): around a crash the retried
+# request must not be sent again, a reply that arrives before the redelivered (still delayed) Task event must be
+# retained until the Task is pending again, and the retry delay must not be served twice
+SCN["retry"] = ({"StartAt": "T", "States": {
+    "T": scn.task("f", ResultPath="$.t", Next="Z", Retry=[{"ErrorEquals": ["Flaky"], "IntervalSeconds": 3, "MaxAttempts": 2, "BackoffRate": 1.0}]),
+    "Z": {"Type": "Pass", "Result": 2, "ResultPath": "$.z", "End": True}}}, ["f"])
+
+
+def _flaky_workers():
+    n = [0]
+
+    def w(req):
+        n[0] += 1
+        if n[0] == 1:
+            return {"errorType": "Flaky", "errorMessage": "first attempt"}
+        return {"ok": 1}
+    return {"f": w}
+
+
+WORKERS = {"retry": _flaky_workers}
+DATA = {"chain": {"x": 1}, "wait": {"x": 1}, "par": {"x": 1}, "map": {"items": [{"i": 0}, {"i": 1}]}, "parnext": {"x": 1}, "retry": {"x": 1}}
 # The volatile-join-results known finding applies only where a result cannot be recomputed from the
 # redelivered (held) branch event: Task-produced results, completed MaxConcurrency batches, End:true joins
 # (events acknowledged before the terminal record).  Pass-only branches joined by a state with Next recover.
-JOIN_LOSS_POSSIBLE = {"chain": False, "wait": False, "par": True, "map": True, "parnext": False}
+JOIN_LOSS_POSSIBLE = {"chain": False, "wait": False, "par": True, "map": True, "parnext": False, "retry": False}
 
 
 def run_with_crash(name, mode, crash_at, picks, second=None):
@@ -49,12 +69,13 @@ def run_with_crash(name, mode, crash_at, picks, second=None):
     dur = sim.Durable()
     arn = dur.add_machine(asl)
     inst = sim.Instance(dur)
-    workers = {q: (lambda req: {"ok": req}) for q in wq}
+    workers = WORKERS[name]() if name in WORKERS else {q: (lambda req: {"ok": req}) for q in wq}
     run = sim.Run(picks, workers, max_steps=200)
     run.instances = [inst]
     b = sim.BROKER
     crashes = [0]
     run.join_state_lost = False
+    run.retry_delay_crash = False
 
     def restart():
         crashes[0] += 1
@@ -68,6 +89,18 @@ def run_with_crash(name, mode, crash_at, picks, second=None):
                 for i, r in enumerate(res["results"]):
                     if r is not None:
                         run.join_state_lost = True
+        # Second known-finding region: the engine dies while a retried Task is sitting out its retry delay - its
+        # event (carrying RetryTimeout) is unacknowledged and its request has not been sent yet.  The redelivered
+        # event is flagged redelivered, so the request is never sent at all.
+        sent = set(o[3] for o in b.oplog if o[0] == "publish" and not str(o[1]).startswith("ev") and o[3])
+        for tag_, (q_, m_, c_) in b.unacked.items():
+            if str(q_).startswith("ev"):
+                try:
+                    doc = stubs.FastJson.loads(m_.body if isinstance(m_.body, str) else m_.body.decode("utf8"))
+                    if "RetryTimeout" in doc["context"]["State"] and m_.message_id not in sent:
+                        run.retry_delay_crash = True
+                except Exception:
+                    pass
         run.instances[0].kill()
         run.instances = [sim.Instance(dur)]
 
@@ -115,6 +148,19 @@ def verdict(name, mode, crash_at, picks, second=None):
     for r in TOLERATED:
         if tag and r.search(tag):
             # recorded known finding: volatile join results whose events were already acknowledged
+            return ""
+    if run.retry_delay_crash:
+        tag = "[retry-delay-crash] "
+        if any(r.search(tag) for r in TOLERATED):
+            # recorded known finding: tolerated symptom is exactly "fails with States.Timeout at the execution
+            # time-out instead of the crash-free outcome"; the execution must still terminate and leave nothing unacked
+            if not terms:
+                return "C04 execution lost: no terminal notification after a crash during a retry delay (mode %d at %d)" % (mode, crash_at)
+            if any((t["status"], t.get("error")) != ("FAILED", "States.Timeout") for t in terms) and \
+               any((t["status"], t.get("output")) != (bstatus, boutput) for t in terms):
+                return "C04 outcome after a crash during a retry delay: %s" % sorted(set((t["status"], t.get("error"), t.get("output")) for t in terms))
+            if sim.BROKER.unacked:
+                return "C04 deliveries left unacknowledged after recovery: %d" % len(sim.BROKER.unacked)
             return ""
     if not terms:
         return "C04 %sexecution lost: no terminal notification after crash (mode %d at %d)" % (tag, mode, crash_at)
@@ -184,3 +230,74 @@ _mk("wait", ("quick", "thorough"))
 _mk("par", ("quick", "thorough"))
 _mk("map", ("thorough",))
 _mk("parnext", ("quick", "thorough"))
+_mk("retry", ("quick", "thorough"))
+
+
+# ---------------------------------------------------------------------------
+# The redelivered flag over the REAL transports (fake pika underneath): the whole-run conditions above use the
+# simulated messaging module, whose Message carries `redelivered` by construction; this condition closes the chain
+# Basic.Deliver.redelivered -> Consumer.message_listener -> Message.redelivered -> EventDispatcher.dispatch ->
+# StateEngine.notify(redelivered) -> TaskDispatcher.execute_task(redelivered) -> no second request.
+# ---------------------------------------------------------------------------
+import vh_c19 as c19
+from vf import fake_pika
+
+
+def _kill_connections(b):
+    for conn in list(b.connections):
+        core = getattr(conn, "_core", conn)
+        for ch in list(getattr(core, "channels", {}).values()) if isinstance(getattr(core, "channels", None), dict) else list(getattr(core, "channels", [])):
+            chc = getattr(ch, "_core", ch)
+            if hasattr(chc, "shutdown"):
+                chc.shutdown(None)
+
+
+@condition(timeout={"quick": 120, "thorough": 300},
+           functions=["amqp_0_9_1_messaging / amqp_0_9_1_messaging_asyncio: Consumer.message_listener (redelivered)", "EventDispatcher.start/start_asyncio/dispatch/publish",
+                      "TaskDispatcher.start/execute_task>asl_service_rpcmessage (redelivered: the request is not sent again)"],
+           outside=["StateEngine.notify itself is replaced by a recorder that forwards the flag it was given (its handling of redelivered events is the subject of the whole-run conditions)"])
+def redelivered_flag_real_transport(aio_mod: bool, quorum: bool, restart: bool) -> bool:
+    """
+    requires: True
+    ensures: _
+    """
+    aio_mod = stubs.cbool(aio_mod); quorum = stubs.cbool(quorum); restart = stubs.cbool(restart)
+    b = fake_pika.new_broker()
+    stubs.SeqUUID.reset()
+    wc = fake_pika.BlockingConnection().channel()
+    wc.queue_declare("f")                     # the function's queue; nobody consumes it, so requests pile up and can be counted
+    out = {"flags": []}
+    event = {"data": {"x": 1}, "context": {"StateMachine": {"Id": c19.SM_ARN}}}
+
+    def script_for(first):
+        def script(b_, se, t, e):
+            if first:
+                e.publish(event, use_shared_queue=True)
+            b_.pump()
+            for (item, id_, red) in se.notified:
+                out["flags"].append(red)
+                t.execute_task("arn:aws:rpcmessage:local::function:f", {"x": 1}, lambda r: None, 5000, True, c19.task_context(), "ev1", red)
+        return script
+
+    def run_engine(first):
+        se, t, e = c19.make_dispatchers(quorum, "i1", aio_mod)
+        if aio_mod:
+            st = fake_pika.run(e.start_asyncio())
+            if st[0] != "blocked":
+                raise RuntimeError("start_asyncio returned")
+            script_for(first)(b, se, t, e)
+            b.pump()
+            try:
+                _kill_connections(b)          # the process dies: the broker requeues its unacknowledged deliveries
+            except c19.EngineExit:
+                pass                          # the engine's own on_close callback ends the process, as it should
+        else:
+            b.on_start_consuming = lambda ch: script_for(first)(b, se, t, e)
+            e.start()                         # returns after closing the connection: same effect at the broker
+    run_engine(True)
+    if restart:
+        run_engine(False)
+    q = b.queue("f")
+    n = len(q.messages) if q is not None else -1
+    want = [False, True] if restart else [False]
+    return out["flags"] == want and n == 1
